@@ -12,6 +12,8 @@ From CB Require Import Trie.RadixProofs.
 From CB Require Import Trie.PrefixMap.
 From CB Require Import Trie.Locks.
 From CB Require Import Trie.LocksProofs.
+From CB Require Import Trie.Nibbles.
+From CB Require Import Trie.NibblesProofs.
 Import ListNotations.
 Local Open Scope N_scope.
 
@@ -142,6 +144,89 @@ Theorem spec_rollback_restores : forall ops (base : sstate),
   s_exec (ONewGen :: ops ++ [ONormalize (length base - 1)]) base = base.
 Proof. exact s_rollback_restores. Qed.
 Print Assumptions spec_rollback_restores.
+
+(** ** The nibble paths as the code stores them (Nibbles.v: byte vector + [last_partial],
+    transcribed with the [u8] operations of the code).  Each function is the obvious
+    operation on the list of nibbles - including odd nibble boundaries - and keeps the
+    stored form well-formed ([st_wf]: bytes are bytes, the unused low nibble of a partial
+    last byte is zero). *)
+Theorem stem_push_spec : forall s c,
+  st_wf s = true -> c < 16 ->
+  nibbles (ms_push s c) = nibbles s ++ [c] /\ st_wf (ms_push s c) = true.
+Proof. exact ms_push_spec. Qed.
+Print Assumptions stem_push_spec.
+
+Theorem stem_truncate_spec : forall s n,
+  st_wf s = true -> (n <= st_len s)%nat ->
+  nibbles (ms_truncate s n) = firstn n (nibbles s) /\ st_wf (ms_truncate s n) = true.
+Proof. exact ms_truncate_spec. Qed.
+Print Assumptions stem_truncate_spec.
+
+Theorem stem_extend_spec : forall s t,
+  st_wf s = true -> st_wf t = true ->
+  nibbles (ms_extend s t) = nibbles s ++ nibbles t /\ st_wf (ms_extend s t) = true.
+Proof. exact ms_extend_spec. Qed.
+Print Assumptions stem_extend_spec.
+
+Theorem stem_prepend_parts_spec : forall self first mid,
+  st_wf self = true -> st_wf first = true -> mid < 16 ->
+  nibbles (prepend_parts self first mid) = nibbles first ++ mid :: nibbles self
+  /\ st_wf (prepend_parts self first mid) = true.
+Proof. exact prepend_parts_spec. Qed.
+Print Assumptions stem_prepend_parts_spec.
+
+Theorem stem_iter_next_spec : forall s pos,
+  st_wf s = true ->
+  it_next (it_of s pos) =
+  if Nat.ltb pos (st_len s) then (Some (nth pos (nibbles s) 0), it_of s (S pos)) else (None, it_of s pos).
+Proof. exact it_next_spec. Qed.
+Print Assumptions stem_iter_next_spec.
+
+Theorem stem_last_to_stem_spec : forall s pos p,
+  st_wf s = true -> (p <= st_len s)%nat ->
+  nibbles (last_to_stem (it_of s pos) p) = skipn p (nibbles s)
+  /\ st_wf (last_to_stem (it_of s pos) p) = true.
+Proof. exact last_to_stem_spec. Qed.
+Print Assumptions stem_last_to_stem_spec.
+
+Theorem stem_consumed_to_stem_spec : forall s pos,
+  st_wf s = true -> (pos <= st_len s)%nat ->
+  nibbles (consumed_to_stem (it_of s pos)) = firstn (pos - 1) (nibbles s)
+  /\ st_wf (consumed_to_stem (it_of s pos)) = true.
+Proof. exact consumed_to_stem_spec. Qed.
+Print Assumptions stem_consumed_to_stem_spec.
+
+(** [follow_stem] on the iterators of the code classifies exactly like [follow_stem] on
+    the nibble lists (the function the radix-tree model uses), and the stems the callers
+    rebuild from the two iterators denote the remaining key, the remaining stem, the
+    common part and the key from the checkpoint. *)
+Theorem follow_stem_on_iterators : forall key kpos st,
+  Forall (fun b => b < 256) key -> st_wf st = true -> (kpos <= 2 * length key)%nat ->
+  let K := skipn kpos (nib key) in
+  let P := nibbles st in
+  let '(r, k', s') := follow_iter (it_of (mkStem key false) kpos) (stem_iter st) in
+  nibbles (last_to_stem k' kpos) = K /\
+  match follow_stem K P with
+  | FEqual => r = IEqual
+  | FKeyIsPrefix c ps => r = IKeyIsPrefix c /\ nibbles (to_stem s') = ps
+  | FStemIsPrefix c kr => r = IStemIsPrefix c /\ nibbles (to_stem k') = kr
+  | FDiff cm kc kr sc sr =>
+      r = IDiff kc sc /\ nibbles (consumed_to_stem s') = cm
+      /\ nibbles (to_stem k') = kr /\ nibbles (to_stem s') = sr
+  end.
+Proof. exact follow_iter_correct. Qed.
+Print Assumptions follow_stem_on_iterators.
+
+Example stem_odd_boundaries :
+  let s := stem_of_nibbles [1; 2; 3] in            (* stored 0x12 0x30, partial *)
+  let t := stem_of_nibbles [4; 5; 6] in
+  st_wf s = true /\ st_wf t = true
+  /\ ms_extend s t = mkStem [18; 52; 86] false     (* 0x12 0x34 0x56 *)
+  /\ prepend_parts t s 15 = mkStem [18; 63; 69; 96] true   (* 1 2 3 f 4 5 6 *)
+  /\ ms_truncate (ms_extend s t) 3 = s
+  /\ fst (fst (follow_iter (iter_new [18; 63]) (stem_iter (ms_extend s t)))) = IDiff 15 4.
+Proof. vm_compute. repeat split. Qed.
+Print Assumptions stem_odd_boundaries.
 
 (** ** Non-vacuity: concrete histories exercising the interesting shapes *)
 
